@@ -121,11 +121,20 @@ def make_doc(entry: str, fam, root: str, variant: int, flavour: int = 0) -> tupl
     doc = FLAVOURS[entry][flavour % len(FLAVOURS[entry])](doc)
     pro = rng.choice(['<?xml version="1.0" encoding="UTF-8"?>', "<?xml version='1.0'?>", ""]) if variant else '<?xml version="1.0"?>'
     ws = rng.choice(["", "\n", "\n  "]) if variant else ""
-    return pro + ws + decl + ws + doc, declares
+    # legal prolog content between the XML declaration and the DOCTYPE: comments and processing instructions, some of them
+    # containing tag-like text (a parser-choosing pre-scan must not be fooled by it)
+    prolog = ["", "", "<!-- exported by hvsim -->", f"<!-- <{rootname}> -->", "<!--<Backup/>-->", f'<?editor "<{rootname}>"?>',
+              "<?xml-stylesheet href='a.xsl'?>"][(variant + flavour * 3 + len(kind)) % 7] if (variant or flavour) else ""
+    text_out = pro + ws + prolog + ws + decl + ws + doc
+    if declares and (variant + flavour) % 4 == 3:
+        # not well-formed (content before the XML declaration): a first parser must refuse it; a lenient second attempt that
+        # strips the junk must not be a less careful parser
+        text_out = ["\n", " ", "\ufeff", "\r\n\t"][(variant // 4 + flavour) % 4] + text_out
+    return text_out, declares
 
 
 def _plan(tier, verif_seed):
-    variants = 1 if tier == "quick" else 12
+    variants = 4 if tier == "quick" else 16
     plan = []
     for e in ENTRY:
         for fl in range(len(FLAVOURS[e])):
@@ -262,3 +271,9 @@ def run_case(case: dict) -> RunResult:
 
 
 SHRINK_LISTS = []
+
+
+def warm_process():
+    from hvsim.engines import monitor as _m
+
+    _m.warm()
